@@ -1234,8 +1234,12 @@ impl Add<Duration> for NaiveTime {
     fn add(self, rhs: Duration) -> NaiveTime {
         // We don't care about values beyond `24 * 60 * 60`, so we can take a modulus and avoid
         // overflow during the conversion to `TimeDelta`.
-        // But we limit to double that just in case `self` is a leap-second.
-        let secs = rhs.as_secs() % (2 * 24 * 60 * 60);
+        // But we keep one whole day of anything longer just in case `self` is a leap-second, which
+        // any duration of a day or more leaves.
+        let secs = match rhs.as_secs() {
+            secs if secs >= 24 * 60 * 60 => secs % (24 * 60 * 60) + 24 * 60 * 60,
+            secs => secs,
+        };
         let d = TimeDelta::new(secs as i64, rhs.subsec_nanos()).unwrap();
         self.overflowing_add_signed(d).0
     }
@@ -1356,8 +1360,12 @@ impl Sub<Duration> for NaiveTime {
     fn sub(self, rhs: Duration) -> NaiveTime {
         // We don't care about values beyond `24 * 60 * 60`, so we can take a modulus and avoid
         // overflow during the conversion to `TimeDelta`.
-        // But we limit to double that just in case `self` is a leap-second.
-        let secs = rhs.as_secs() % (2 * 24 * 60 * 60);
+        // But we keep one whole day of anything longer just in case `self` is a leap-second, which
+        // any duration of a day or more leaves.
+        let secs = match rhs.as_secs() {
+            secs if secs >= 24 * 60 * 60 => secs % (24 * 60 * 60) + 24 * 60 * 60,
+            secs => secs,
+        };
         let d = TimeDelta::new(secs as i64, rhs.subsec_nanos()).unwrap();
         self.overflowing_sub_signed(d).0
     }
